@@ -12,6 +12,7 @@ LOCAL_STATE = ['pyclifford/paulialg.py::PauliList.rotate_by#mask_state', 'pyclif
                'pyclifford/circuit.py::CliffordGate.backward#generator_local_state', 'pyclifford/paulialg.py::PauliList.transform_by#mask_state',
                'pyclifford/circuit.py::CliffordGate.forward#map_local_state']
 CASTS = [PA + 'Pauli.as_list', PA + 'Pauli.as_monomial', PA + 'Pauli.as_polynomial', PA + 'PauliList.as_polynomial', PA + 'Pauli.tokenize']
+MBACK = ['pyclifford/circuit.py::MeasureLayer.backward#record', 'pyclifford/circuit.py::MeasureLayer.backward#own']
 RANDOM_STATE = [ST + 'random_clifford_map', ST + 'random_clifford_state#none', ST + 'random_clifford_state#r', ST + 'random_pauli_state#none', ST + 'random_pauli_state#r',
                 'pyclifford/circuit.py::CliffordGate.forward#random_global_state', 'pyclifford/circuit.py::CliffordGate.forward#random_local_state',
                 'pyclifford/circuit.py::CliffordGate.backward#random_state']
@@ -26,7 +27,7 @@ CLASS_LAYER = [PA + 'Pauli.__matmul__#Pauli', PA + 'Pauli.__neg__', PA + 'Pauli.
                'pyclifford/circuit.py::CliffordGate.forward#map_global'] + GATES[3:] + LOCAL_GATES + LOCAL_STATE + \
               [PA + '%s.__rmul__#%s' % (c, t) for c in ('Pauli', 'PauliList') for t in ('1', 'i', 'm1', 'mi')] + \
               [PA + 'pauli#codes', PA + 'pauli#chars', PA + 'pauli#str', PA + 'PauliList.__getitem__#mask', PA + 'PauliList.__getitem__#slice', PA + 'PauliList.__getitem__#index'] + \
-              RANDOM_STATE + RANDOM_CLIFFORD[:2] + CASTS
+              RANDOM_STATE + RANDOM_CLIFFORD[:2] + CASTS + MBACK
 
 # every kernel that currently has a discharged contract (their frame.* obligations are the C17 frame conditions)
 MEASURE_LEMMAS = ['ordp_parity', 'xzpartial_full', 'selacq_map', 'selacq_image', 'partnersum_acq', 'transform_preserves_acq', 'acq_diff2', 'onsite_flat', 'acq_bilinear', 'acq_antisym', 'ipow_parity', 'ordg_bits', 'acq_zero', 'ordg_acq', 'selacq_gram', 'acqsum_ext',
@@ -88,7 +89,7 @@ def C05(run):
     run.deductive(keys=[U + 'stabilizer_measure', U + 'stabilizer_project', U + 'map_to_state', U + 'clifford_rotate', ST + 'CliffordMap.to_state#r',
                         ST + 'CliffordMap.to_state#none', ST + 'StabilizerState.copy', ST + 'StabilizerState.measure#list', ST + 'StabilizerState.measure#state',
                         ST + 'StabilizerState.postselect', 'pyclifford/circuit.py::MeasureLayer.forward', U + 'stabilizer_postselection', PA + 'PauliList.rotate_by#state', PA + 'PauliList.transform_by#state', GATES[3], GATES[4], GATES[5],
-                        U + 'stabilizer_projection_trace', U + 'mask', PA + 'PauliList.rotate_by#mask', PA + 'PauliList.transform_by#mask'] + LOCAL_STATE + RANDOM_STATE + RANDOM_CLIFFORD,
+                        U + 'stabilizer_projection_trace', U + 'mask', PA + 'PauliList.rotate_by#mask', PA + 'PauliList.transform_by#mask'] + LOCAL_STATE + RANDOM_STATE + RANDOM_CLIFFORD + MBACK,
                   lemmas=MEASURE_LEMMAS + MASK_LEMMAS + ['acq_drop2', 'rot_preserve', 'acq_local'])
     run.bounded_check('c05_histories', _b().c05_histories, Nmax=3, walks=q(run, 45, 2500), steps=q(run, 10, 30))
     run.bounded_check('c06_measure', _b().c06_measure, Nmax=2, count=q(run, 25, 400), reps=q(run, 2, 5))
@@ -182,9 +183,13 @@ def C13(run):
 
 def C14(run):
     run.deductive(keys=[U + 'stabilizer_measure', U + 'stabilizer_postselection', ST + 'StabilizerState.postselect', ST + 'StabilizerState.measure#list',
-                        'pyclifford/circuit.py::MeasureLayer.forward', 'pyclifford/circuit.py::MeasureLayer.obs_gs_ps'], lemmas=MEASURE_LEMMAS)
+                        'pyclifford/circuit.py::MeasureLayer.forward', 'pyclifford/circuit.py::MeasureLayer.obs_gs_ps'] + MBACK, lemmas=MEASURE_LEMMAS)
     run.bounded_check('c14_trajectory', _b().c14_trajectory, Nmax=3, programs=q(run, 40, 1200))
-    return 'other', ('bounded: measurement layers and circuits with mid-circuit measurements against the dense trajectory in program order, '
+    return 'other', ('deductive (all N): a measurement layer measures exactly the Z strings of its qubits (obs_gs_ps) through the measurement kernel (Born rule / projection per '
+                     'observable, record of +-1 in order, rank update), post-selection returns the Born probability of the requested sign and the projected (or unchanged) state; '
+                     'MeasureLayer.backward (supplied record, or the layer own record) post-selects Z on the recorded qubits last-first through the parser and postselect and returns a '
+                     'pure valid state whenever it returns (partial correctness: ValueError allowed); '
+                     'bounded: measurement layers and circuits with mid-circuit measurements against the dense trajectory in program order, '
                      'backward = adjoint of the recorded trajectory, impossible records rejected, post-selection of all signed strings')
 
 
@@ -274,7 +279,7 @@ TECHNIQUE = {
     'C11': 'deductive contracts (z3): H, S, X, Y, Z, CNOT construct the textbook tables; a map gate acts as its table on its qubits for every register size; exhaustive native check of all finite gate tables incl. C(0..23), closure, construction histories',
     'C12': 'deductive contracts (z3): map_to_state / state_to_map / to_state / to_map / stabilizer_project, duality (to_state turns the canonical commutation relations into the tableau structure), identity_map, zero / maximally mixed state; bounded dense oracle for the other constructors',
     'C13': 'bounded conformance testing torch vs numpy port (tensor code is outside the fragment of the VC generator)',
-    'C14': 'deductive contracts on stabilizer_measure, stabilizer_postselection, postselect, MeasureLayer.forward (z3); bounded dense trajectory oracle for circuits',
+    'C14': 'deductive contracts on stabilizer_measure, stabilizer_postselection, postselect, MeasureLayer.forward / backward / obs_gs_ps (z3); bounded dense trajectory oracle for circuits',
     'C15': 'deductive contracts (z3, complex numbers abstract): products of polynomials / Pauli @ monomial, negation, number multiples, copy; bounded dense-matrix oracle over random expression trees for sums, reduce, trace',
     'C16': 'deductive validity for every RNG draw (z3): random_pair, random_pauli / random_pauli_map, pauli_diagonalize2, the recursive sampler random_clifford (induction over its recursion), random_clifford_map, the random states and the resampling gate; bounded validity of the circuit constructors and chi-square counting on finite groups',
     'C17': 'deductive frame conditions (modifies clauses, freshness of results) of every function under contract (z3); bounded snapshot checks for copies and queries of the class layer',
